@@ -1,4 +1,4 @@
-import Qfproto.Grouper
+import QF.Core.Grouper
 /-! Prototype: probe correctness for the open-addressing table under the reachability invariant. -/
 namespace G
 
